@@ -358,6 +358,13 @@ func (t *Thread) processOutgoingInterest(
 		return false
 	}
 
+	// Check if violates /localhost
+	if outgoingFace.Scope() == defn.NonLocal && len(interest.NameV) > 0 &&
+		bytes.Equal(interest.NameV[0].Val, LOCALHOST) {
+		core.LogWarn(t, "Interest ", packet.Name, " cannot be sent to non-local FaceID=", nexthop, " since violates /localhost scope - DROP")
+		return false
+	}
+
 	// Drop if HopLimit (if present) on Interest going to non-local face is 0. If so, drop
 	if interest.HopLimitV != nil && int(*interest.HopLimitV) == 0 &&
 		outgoingFace.Scope() == defn.NonLocal {
